@@ -249,6 +249,19 @@ let fsck_image path slot pend =
      | _ -> print_endline "FSCK nomount")
   | _ -> print_endline "FSCK nomount"
 
+(* crashck <image> <slot>: mount with the model, decide the crash invariant (PrFsck2.crash_inv_fast) on the raw medium *)
+let crashck_image path slot =
+  let img = load_image path in
+  let s = init_state img (n_of_int 5000) (n_of_int 1) (n_of_int 4) (n_of_int 4) [] in
+  match step (OpenVol (n_of_int slot)) s with
+  | (Ok _, s1) ->
+    (match s1.s_vols with
+     | [v] ->
+       let fsz = bpb_fat_size (disk_get s1.s_disk v.v_lba) in
+       print_endline (if crash_inv_fast fsck_depth fsz s1.s_disk v then "CRASHCK ok" else "CRASHCK bad")
+     | _ -> print_endline "CRASHCK nomount")
+  | _ -> print_endline "CRASHCK nomount"
+
 (* runfsck <script>: run the script on the model and decide the invariant on the model's state after every call *)
 let run_fsck path =
   let ic = open_in path in
@@ -300,5 +313,6 @@ let () =
   match Array.to_list Sys.argv with
   | [_; "run"; path] -> run_script path
   | [_; "runfsck"; path] -> run_fsck path
+  | [_; "crashck"; path; slot] -> crashck_image path (int_of_string slot)
   | _ :: "fsck" :: path :: slot :: pend -> fsck_image path (int_of_string slot) (List.map int_of_string pend)
   | _ -> prerr_endline "usage: modelrun-fs run <script>"; exit 2
